@@ -646,9 +646,16 @@ fn locate_fragment(c: &rewrite::Collector, kind: &str, anchor: &str, sel: &str) 
             }
         }
         "let" => {
-            match c.lets.iter().filter(|(n, _)| n == anchor).collect::<Vec<_>>().as_slice() {
-                [one] => one.1,
-                other => die(&format!("lost anchor: {} has {} `let {} = ...` statements", sel, other.len(), anchor)),
+            // `let NAME` (must be unique) or `let NAME K` (K-th `let NAME = …` in pre-order)
+            let (name, k) = match anchor.split_once(char::is_whitespace) {
+                Some((n, k)) => (n, Some(k.trim().parse::<usize>().unwrap_or_else(|_| die("fragment: let NAME K")))),
+                None => (anchor, None),
+            };
+            let hits: Vec<&(String, (usize, usize))> = c.lets.iter().filter(|(n, _)| n == name).collect();
+            match k {
+                Some(k) if k < hits.len() => hits[k].1,
+                None if hits.len() == 1 => hits[0].1,
+                _ => die(&format!("lost anchor: {} has {} `let {} = ...` statements", sel, hits.len(), name)),
             }
         }
         _ => die(&format!("unknown fragment kind {}", kind)),
